@@ -136,4 +136,40 @@ var props = map[string]*propCfg{
 		Stub: []string{"Mesos master, agents, executors and tasks: simmesos behind the calls.Caller seam (verif hook SetCallerForVerif)", "Consul: simconsul (http.RoundTripper)", "Kafka: capturing event writers", "gRPC transport: RPC methods are called directly on the RpcServer object (verif hook)", "metrics HTTP server: disabled (port -1)"},
 		Assumptions: append([]string{"simmesos is a model of Mesos written from the scheduler API documentation", "replay of a violation is confirmed in a fresh process; tapes of this harness are not shrunk (one run per process)", "determinism of this harness is checked by replaying every violation in a fresh process (canonical log hash must match), not by the per-seed self-test"}, commonAssumptions...),
 	},
+	"C03": {
+		Harness: "hcore", Level: "exploration", OnePerProcess: true,
+		QuickRuns: 1600, QuickBudgetS: 150, ThoroughRuns: 100000, ThoroughBudgetS: 1800,
+		WatchdogSlackS: 180, DetSeedsQuick: 0, DetSeedsThorough: 0,
+		Rule: "one run = whole core in one OS process, 2-3 agents, a workflow of 1-3 tasks (critical or not) brought to CONFIGURED or RUNNING; a victim task and a failure kind (TASK_FAILED, TASK_LOST, TASK_KILLED, executor FAILURE, agent FAILURE, TASK_INTERNAL_ERROR) are drawn, injected 0-3 s later, idle or racing with a START/STOP request; the environment is polled for 150 simulated s; oracle: critical victim (or a critical task on the lost executor/agent) => ERROR reached and kept, end-of-run record published if a run was active; non-critical victim => state changes only through client requests; non-trivial = the oracle's situation really occurred; distinct = distinct (scenario, interleaving)",
+		Real: []string{"core.RpcServer methods (NewEnvironment, ControlEnvironment, DestroyEnvironment, GetEnvironments, GetTasks, CleanupTasks)", "core/environment: Manager (create, teardown, event loop), Environment FSM, transition_*.go bodies", "core/task: Manager (acquire/configure/transition/release/kill, status handling), scheduler event handlers (offers, updates, messages, failure, reconciliation), roster, matching", "core/controlcommands", "core/workflow (load from a generated local git repository, role tree, template processing)", "core/repos (local repository)", "apricot/local + cfgbackend.ConsulSource + hashicorp consul api", "mesos-go controller, event/call rules, ack handling", "looplab/fsm (instrumented copy)"},
+		Stub: []string{"Mesos master, agents, executors and tasks: simmesos behind the calls.Caller seam (verif hook SetCallerForVerif)", "Consul: simconsul (http.RoundTripper)", "Kafka: capturing event writers", "gRPC transport: RPC methods are called directly on the RpcServer object (verif hook)", "metrics HTTP server: disabled (port -1)"},
+		Assumptions: append([]string{"simmesos is a model of Mesos written from the scheduler API documentation", "violations are confirmed by replaying the recorded tape in a fresh process (canonical log hash must match); tapes of this harness are not shrunk"}, commonAssumptions...),
+	},
+	"C04": {
+		Harness: "hcore", Level: "exploration", OnePerProcess: true,
+		QuickRuns: 1600, QuickBudgetS: 150, ThoroughRuns: 100000, ThoroughBudgetS: 1800,
+		WatchdogSlackS: 180, DetSeedsQuick: 0, DetSeedsThorough: 0,
+		Rule: "one run = whole core, 2-3 agents each with its own detector, 1-3 workflows over overlapping hosts, 1-3 concurrent clients each creating/controlling/destroying (force, keep-tasks, allow-running drawn) 1-3 environments and calling CleanupTasks, an observer polling GetEnvironments/GetTasks/GetTask; oracles: detectors of listed environments pairwise disjoint at every observation, no KILL for a task owned by an environment nobody asked to destroy, every request returns; non-trivial = the oracle's situation really occurred; distinct = distinct (scenario, interleaving)",
+		Real: []string{"core.RpcServer methods (NewEnvironment, ControlEnvironment, DestroyEnvironment, GetEnvironments, GetTasks, CleanupTasks)", "core/environment: Manager (create, teardown, event loop), Environment FSM, transition_*.go bodies", "core/task: Manager (acquire/configure/transition/release/kill, status handling), scheduler event handlers (offers, updates, messages, failure, reconciliation), roster, matching", "core/controlcommands", "core/workflow (load from a generated local git repository, role tree, template processing)", "core/repos (local repository)", "apricot/local + cfgbackend.ConsulSource + hashicorp consul api", "mesos-go controller, event/call rules, ack handling", "looplab/fsm (instrumented copy)"},
+		Stub: []string{"Mesos master, agents, executors and tasks: simmesos behind the calls.Caller seam (verif hook SetCallerForVerif)", "Consul: simconsul (http.RoundTripper)", "Kafka: capturing event writers", "gRPC transport: RPC methods are called directly on the RpcServer object (verif hook)", "metrics HTTP server: disabled (port -1)"},
+		Assumptions: append([]string{"simmesos is a model of Mesos written from the scheduler API documentation", "violations are confirmed by replaying the recorded tape in a fresh process (canonical log hash must match); tapes of this harness are not shrunk"}, commonAssumptions...),
+	},
+	"C06": {
+		Harness: "hcore", Level: "exploration", OnePerProcess: true,
+		QuickRuns: 1600, QuickBudgetS: 150, ThoroughRuns: 100000, ThoroughBudgetS: 1800,
+		WatchdogSlackS: 180, DetSeedsQuick: 0, DetSeedsThorough: 0,
+		Rule: "same multi-environment workload plus tasks that fail to start / never start / fail CONFIGURE, a template that fails to load, DESTROY hook tasks; oracles after every destroy or failed create: environment not listed, no task still owned by it, every task it owned was asked to terminate unless keep-tasks, success is not reported while still listed, leftovers are killed by the next CleanupTasks; non-trivial = the oracle's situation really occurred; distinct = distinct (scenario, interleaving)",
+		Real: []string{"core.RpcServer methods (NewEnvironment, ControlEnvironment, DestroyEnvironment, GetEnvironments, GetTasks, CleanupTasks)", "core/environment: Manager (create, teardown, event loop), Environment FSM, transition_*.go bodies", "core/task: Manager (acquire/configure/transition/release/kill, status handling), scheduler event handlers (offers, updates, messages, failure, reconciliation), roster, matching", "core/controlcommands", "core/workflow (load from a generated local git repository, role tree, template processing)", "core/repos (local repository)", "apricot/local + cfgbackend.ConsulSource + hashicorp consul api", "mesos-go controller, event/call rules, ack handling", "looplab/fsm (instrumented copy)"},
+		Stub: []string{"Mesos master, agents, executors and tasks: simmesos behind the calls.Caller seam (verif hook SetCallerForVerif)", "Consul: simconsul (http.RoundTripper)", "Kafka: capturing event writers", "gRPC transport: RPC methods are called directly on the RpcServer object (verif hook)", "metrics HTTP server: disabled (port -1)"},
+		Assumptions: append([]string{"simmesos is a model of Mesos written from the scheduler API documentation", "violations are confirmed by replaying the recorded tape in a fresh process (canonical log hash must match); tapes of this harness are not shrunk"}, commonAssumptions...),
+	},
+	"C18": {
+		Harness: "hcore", Level: "exploration", OnePerProcess: true,
+		QuickRuns: 1600, QuickBudgetS: 150, ThoroughRuns: 100000, ThoroughBudgetS: 1800,
+		WatchdogSlackS: 180, DetSeedsQuick: 0, DetSeedsThorough: 0,
+		Rule: "one run = whole core with an environment in a drawn phase of its life; either the core is crashed at a drawn instant (its goroutines never run again, only simconsul and simmesos survive) and a new incarnation is booted, or the subscription is dropped and re-established; oracles: restart subscribes under the stored framework id, every task Mesos still holds alive from the previous life is killed within 60 s, the new instance lists no environment; reconnect: no KILL for tasks owned by the live environment, environment state unchanged; non-trivial = the oracle's situation really occurred; distinct = distinct (scenario, interleaving)",
+		Real: []string{"core.RpcServer methods (NewEnvironment, ControlEnvironment, DestroyEnvironment, GetEnvironments, GetTasks, CleanupTasks)", "core/environment: Manager (create, teardown, event loop), Environment FSM, transition_*.go bodies", "core/task: Manager (acquire/configure/transition/release/kill, status handling), scheduler event handlers (offers, updates, messages, failure, reconciliation), roster, matching", "core/controlcommands", "core/workflow (load from a generated local git repository, role tree, template processing)", "core/repos (local repository)", "apricot/local + cfgbackend.ConsulSource + hashicorp consul api", "mesos-go controller, event/call rules, ack handling", "looplab/fsm (instrumented copy)"},
+		Stub: []string{"Mesos master, agents, executors and tasks: simmesos behind the calls.Caller seam (verif hook SetCallerForVerif)", "Consul: simconsul (http.RoundTripper)", "Kafka: capturing event writers", "gRPC transport: RPC methods are called directly on the RpcServer object (verif hook)", "metrics HTTP server: disabled (port -1)"},
+		Assumptions: append([]string{"simmesos is a model of Mesos written from the scheduler API documentation", "violations are confirmed by replaying the recorded tape in a fresh process (canonical log hash must match); tapes of this harness are not shrunk"}, commonAssumptions...),
+	},
 }
